@@ -763,6 +763,9 @@ def parse_grammar(
                 )
                 sys.exit(USAGE_ERROR)
 
+        # A grammar without start symbol or with undefined nonterminals is malformed.
+        gg.GrammarGraph.from_grammar(grammar)
+
     except Exception as exc:
         exc_string = str(exc)
         if exc_string == "None":
